@@ -136,6 +136,37 @@ def solver_case(ctx: Ctx, stream: str, i: int) -> None:
         resid = np.linalg.norm(m @ z - np.asarray(y, dtype=np.float64)) / np.linalg.norm(np.asarray(y, dtype=np.float64))
         if not np.all(np.isfinite(z)) or resid > tol * max(1.0, cond):
             ctx.fail(stream, i, 'solver-residual', f'A z = y solved with relative residual {resid:.2e} (cond {cond:.1f})', cfg)
+    # "the configured solver tolerance" is the one in force where A.I is built, through any nesting of Config
+    # blocks: settings of an enclosing block that the inner blocks do not restate still apply
+    weak = lx.CG(rtol=1e-6, atol=1e-6, max_steps=1)
+    quiet = lambda sol: None  # noqa: E731
+    depth = rng.randint(1, 3)
+    ref = {}
+    for outer_is_weak in (True, False):
+        outer = weak if outer_is_weak else lx.CG(rtol=1e-6, atol=1e-6, max_steps=500)
+        with Config(solver=outer, solver_callback=quiet):       # reference: one block, everything stated
+            ref[outer_is_weak] = np.asarray(a.I(y), dtype=np.float64)
+    informative = not np.allclose(ref[True], ref[False], rtol=1e-3, atol=1e-3)
+    for outer_is_weak in (True, False):
+        outer = weak if outer_is_weak else lx.CG(rtol=1e-6, atol=1e-6, max_steps=500)
+        with Config(solver=outer):
+            with Config(solver_callback=quiet):
+                if depth >= 2:
+                    with Config(solver_throw=False):
+                        if depth >= 3:
+                            with Config(solver_options={}):
+                                inv_n = a.I
+                        else:
+                            inv_n = a.I
+                else:
+                    inv_n = a.I
+        zn = np.asarray(inv_n(y), dtype=np.float64)
+        if informative and not np.allclose(zn, ref[outer_is_weak], rtol=1e-4, atol=1e-4):
+            ctx.fail(stream, i, 'solver-ignores-enclosing-config',
+                     f'A.I built {depth} block(s) inside Config(solver=CG(max_steps={1 if outer_is_weak else 500})) does '
+                     f'not solve like A.I built directly in that block: the enclosing solver setting was not in force',
+                     {**cfg, 'depth': depth, 'nested': zn.tolist(), 'reference': ref[outer_is_weak].tolist()})
+    ctx.count('nested-config:' + ('informative' if informative else 'uninformative'))
     am = np.asarray(inv.as_matrix(), dtype=np.float64)
     if not gen.close(am @ m, np.eye(n), 1e-3):
         ctx.fail(stream, i, 'lazy-inverse-as_matrix', 'as_matrix() of the lazy inverse is not the matrix inverse', cfg)
